@@ -170,7 +170,21 @@ fn eval_cli(map: &[Option<usize>], cs: &CallSet, rows: &[Vec<Cls>], container: C
         m2[first] = Some(last_pop);
         alt_expect = Some(ref_create(rows, &m2, None));
     }
-    let mut args: Vec<&str> = vec!["create", "-s", &sa];
+    // "samples-file:<endings>": the same assignment as a two-column file with the given line endings
+    let samples_text: Option<String> = what.strip_prefix("samples-file:").map(|endings| {
+        let lines: Vec<String> = sa.split(',').map(|e| e.replacen('=', "\t", 1)).collect();
+        match endings {
+            "lf" => lines.join("\n") + "\n",
+            "lf-no-final" => lines.join("\n"),
+            "crlf" => lines.join("\r\n") + "\r\n",
+            _ => lines.join("\r\n"),
+        }
+    });
+    let samples_path = samples_text.as_ref().map(|text| scratch.file(".samples", text.as_bytes()));
+    let mut args: Vec<&str> = match &samples_path {
+        Some(p) => vec!["create", "-S", p.to_str().unwrap()],
+        None => vec!["create", "-s", &sa],
+    };
     // "precision-<p>": an explicit --precision without projection must still print exact integers
     if let Some(p) = what.strip_prefix("precision-") {
         args.extend(["--precision", p]);
@@ -178,6 +192,11 @@ fn eval_cli(map: &[Option<usize>], cs: &CallSet, rows: &[Vec<Cls>], container: C
     // "verbosity<flag>": what is logged must not change what is counted
     if let Some(v) = what.strip_prefix("verbosity") {
         args.push(v);
+    }
+    // "complete:<flags>": every selected sample is called in every record (unselected samples are
+    // not), so flags that only concern skipped sites or resources change nothing
+    if let Some(flags) = what.strip_prefix("complete:") {
+        args.extend(flags.split(' ').filter(|f| !f.is_empty()));
     }
     // "long-stream-threads-<t>": an explicit thread count must not change what is counted
     if let Some(t) = what.strip_prefix("long-stream-threads-") {
@@ -199,6 +218,9 @@ fn eval_cli(map: &[Option<usize>], cs: &CallSet, rows: &[Vec<Cls>], container: C
     } else {
         run_sfs(&args, Stdin::Bytes(&bytes), scratch)
     };
+    if let Some(p) = &samples_path {
+        let _ = std::fs::remove_file(p);
+    }
     if (what == "repeated-entry" || what == "contradictory-entry") && o.diagnosed_error() && o.stdout.is_empty() {
         return None;
     }
@@ -218,6 +240,7 @@ fn eval_cli(map: &[Option<usize>], cs: &CallSet, rows: &[Vec<Cls>], container: C
                 o.push(("argv".into(), J::strs(&argv)));
                 o.push(("input_hex".into(), J::s(crate::json::hex(&bytes))));
                 o.push(("by_path_name".into(), if what == "by-path" { J::s(match container { Container::Vcf => "calls.vcf", Container::VcfGz => "calls.vcf.gz", Container::Bcf | Container::RawBcf => "calls.bcf" }) } else { J::Null }));
+                o.push(("samples_file_text".into(), match &samples_text { Some(t) => J::s(t.clone()), None => J::Null }));
                 o.push(("expect_shape".into(), J::usizes(&expect.spectrum.shape)));
                 o.push(("expect_data".into(), J::f64s(&expect.spectrum.data)));
                 o.push(("alt_expect_data".into(), alt_expect.as_ref().map_or(J::Null, |a| J::f64s(&a.spectrum.data))));
@@ -417,6 +440,22 @@ pub fn run(tier: Tier) -> i32 {
             cjobs.push((map.clone(), asym_cs.clone(), asym.clone(), Container::Vcf, "grouped-by-population".into()));
             cjobs.push((map.clone(), asym_cs, asym, Container::Bcf, "grouped-by-population".into()));
         }
+        // the rows in which every selected sample is called while the unselected ones take every
+        // class: no site is skipped, whatever the other samples look like
+        if map.iter().any(|p| p.is_some()) && map.iter().any(|p| p.is_none()) {
+            let complete: Vec<Vec<Cls>> = rows.iter().filter(|r| r.iter().zip(map).all(|(c, p)| p.is_none() || c.alt().is_some())).cloned().collect();
+            let ccs = callset_from_rows(s, &complete, 2);
+            for flags in ["--strict", "--strict -vv", "--strict --threads 1", "--threads 7 -q", "--strict --precision 3"] {
+                for c in [Container::Vcf, Container::Bcf] {
+                    cjobs.push((map.clone(), ccs.clone(), complete.clone(), c, format!("complete:{flags}")));
+                }
+            }
+        }
+        if map.iter().any(|p| p.is_some()) {
+            for endings in ["lf", "lf-no-final", "crlf", "crlf-no-final"] {
+                cjobs.push((map.clone(), all.clone(), rows.clone(), Container::Vcf, format!("samples-file:{endings}")));
+            }
+        }
         for p in ["0", "1", "6", "17"] {
             cjobs.push((map.clone(), all.clone(), rows.clone(), Container::Vcf, format!("precision-{p}")));
         }
@@ -447,7 +486,7 @@ pub fn run(tier: Tier) -> i32 {
         name: "cli: sfs create -s".into(),
         evaluations: cjobs.len() as u64,
         nontrivial: nt,
-        note: format!("S={s}: {} maps x ({} one-record VCFs + every-row call set in 4 containers on stdin and by path under its conventional file name + explicit --precision 0/1/6/17 + verbosity flags -q/-v/-vv/-vvv + a list naming one sample twice (same label; and with another label: error, first- or last-label assignment) + the list grouped by population (order unlike the column order) + 8 decorations in vcf and bcf)", maps.len(), rows.len()),
+        note: format!("S={s}: {} maps x ({} one-record VCFs + every-row call set in 4 containers on stdin and by path under its conventional file name + the rows complete among the selected samples under --strict / --threads / verbosity / precision flag combinations in vcf and bcf + the assignment as a samples file with LF / CRLF endings with and without a final line end + explicit --precision 0/1/6/17 + verbosity flags -q/-v/-vv/-vvv + a list naming one sample twice (same label; and with another label: error, first- or last-label assignment) + the list grouped by population (order unlike the column order) + 8 decorations in vcf and bcf)", maps.len(), rows.len()),
         exhaustive: true,
         extra: vec![],
     });
@@ -551,6 +590,13 @@ pub fn replay(case: &J) -> Option<Vec<String>> {
         "c01-cli" => {
             let scratch = Scratch::new("c01r");
             let argv: Vec<String> = case.get("argv")?.as_arr()?.iter().filter_map(|a| a.as_str().map(|s| s.to_string())).collect();
+            let mut argv = argv;
+            if let Some(text) = case.get("samples_file_text").and_then(|t| t.as_str()) {
+                let p = scratch.file(".samples", text.as_bytes());
+                if let Some(i) = argv.iter().position(|a| a == "-S") {
+                    argv[i + 1] = p.to_str()?.to_string();
+                }
+            }
             let mut args: Vec<&str> = argv.iter().map(|s| s.as_str()).collect();
             let bytes = crate::json::unhex(case.get("input_hex")?.as_str()?)?;
             let shape = case.get("expect_shape")?.as_usizes()?;
